@@ -17,7 +17,8 @@ ASSUMPTIONS = ["residue ids are kept fixed under relabelling (as the property st
 BUDGET = {"quick": 540, "thorough": 3000}
 
 BASE_LINKSETS = [["bb"], ["bb", "ang3", "a_c"], ["gt", "pat"], ["lab", "edge_only"], ["circ", "bb"], ["star"], ["rm", "bb"],
-                 ["ver2", "lt_sa"], ["bb", "nonedge"], ["dih4", "bb"], ["ord3:>,,>>", "bb"], ["ord3:<,>,", "gt"], ["ord3:*,,**"]]
+                 ["ver2", "lt_sa"], ["bb", "nonedge"], ["dih4", "bb"], ["ord3:>,,>>", "bb"], ["ord3:<,>,", "gt"], ["ord3:*,,**"],
+                 ["repl_type", "sel_type"]]
 
 
 def cases(tier):
